@@ -278,6 +278,33 @@ example :
     let s := run repoExitOrder (init 4) ([.frontNew true, .sendTake, .readErr .peerClosed] ++ shutdownSchedule)
     s.sendP = .done ∧ s.readP = .done ∧ s.cause = some .peerClosed ∧ s.frontClosed = true := by decide
 
+/-! ### C09.4b — on a healthy connection an answered future resolves: nothing is dropped silently -/
+
+/-- A well-formed response bearing the id under which a call or a subscribe waits — whatever its
+payload: a result that is no subscription id (object, array, bool, null, fraction, negative number),
+an error object with any data, an id already in use — is handled without a fatal error, and the
+waiting future's oneshot is **sent on** in this very step (`complete`; `dropped` only if the caller
+had already abandoned the future).  The manager never lets go of a waiting oneshot silently, so on
+a connection that stays up no future can be left with a dropped sender (which would park it in
+`read_error`, outside the request timeout, until the connection ends). -/
+theorem c09_answer_resolves_future (st : Core) (raw : Text) (r : Response) (t : Ticket)
+    (hd : decodeResponse raw = some r)
+    (hw : alookup r.id st.mgr.requests = some (.pendingCall (some t)) ∨
+          ∃ uid um, alookup r.id st.mgr.requests = some (.pendingSub uid t um)) :
+    (handleBack st raw).fatal = none ∧
+    ∃ o, Effect.complete t o ∈ (handleBack st raw).effs ∨ Effect.dropped t o ∈ (handleBack st raw).effs :=
+  answered_handleBack st raw r t hd hw
+
+-- non-vacuity: a subscribe waiting under id 0 answered by `{"id":0,"result":{"x":1}}` (decoded): the
+-- future gets the parse error, the reserved slot is released, nothing fatal
+example :
+    let st : Core := { mgr := { requests := [(.num 1, .pendingCall none),
+                                              (.num 0, .pendingSub (.num 1) { op := 0, wire := .num 0 } [117])] }, cap := 1 }
+    let r : Response := { jsonrpc := true, id := .num 0, payload := .result [123, 34, 120, 34, 58, 49, 125] }
+    (match processSingleResponse st r with
+     | .ok (st', effs) => (st'.mgr.requests, effs)
+     | .error _ => ([], [])) = ([], [.complete { op := 0, wire := .num 0 } .badSubId]) := by decide
+
 /-! ### C09.5 — first cause wins -/
 
 /-- the slot is written at most once, and once it holds `c` it holds `c` in every later state of
